@@ -335,8 +335,56 @@ def check_program(acc, prog, name, rnd, layout_seed=None, sample=False):
     acc.case(r.text, sum(len(x) for x in c.routine_ops) >= 3)
     fom = {m[0]: "main" for m in prog.get("macros", [])}
     check_compilation(acc, c, ref, {"main": r}, "main", fom, {}, inp, rnd, call_arg_marks([prog]), call_ids([prog]))
+    check_control_statements(acc, c, prog, r, inp)
     if sample:
         acc.sample({"text": r.text[:500], "map": sorted((k, (v.line, v.column)) for k, v in c.source_map._mappings.items())[:12]})
+
+
+def check_control_statements(acc, c, prog, r, inp):
+    """`break;` / `continue;` / `break_loop;` / `jump @l;` written right after a plain operation of a routine: when the jump compiled
+    for it is still there (the op that follows the operation's op, with the next offset), its entry is where the statement begins."""
+    names = {}
+    for rr in c.routine_ops:
+        for i, op in enumerate(rr):
+            names.setdefault(op.op_code.name, []).append((rr, i))
+    sm = c.source_map
+
+    def walk(ss):
+        for a, b in zip(ss, ss[1:]):
+            if a[0] == "op" and a[3] is None and b[0] in ("ctrl", "jump") and (b[0] == "jump" or b[1] in ("break", "continue", "break_loop")):
+                hits = names.get(a[1], [])
+                if len(hits) != 1:
+                    continue
+                rr, i = hits[0]
+                if i + 1 < len(rr) and rr[i + 1].op_code.name == "Jump" and rr[i + 1].offset == rr[i].offset + 1:
+                    want = r.posall.get(("stmt", id(b))) or set()
+                    m = sm.get_op_line_and_col(rr[i + 1].offset)
+                    acc.count("control_statement_entries_checked")
+                    if want and (m is None or (m.line, m.column) not in want):
+                        acc.violation(gsig("control-statement-entry-not-at-the-statement", b[1] if b[0] == "ctrl" else "jump"),
+                                      {"statement": b[1], "expected": sorted(want), "got": None if m is None else (m.line, m.column)}, inp)
+                        return False
+        for st in ss:
+            k = st[0]
+            subs = []
+            if k == "if":
+                subs = [blk for _, _, blk in st[1]] + ([st[2]] if st[2] else [])
+            elif k == "switch":
+                subs = [blk for _, blk in st[2]]
+            elif k == "forever":
+                subs = [st[1]]
+            elif k == "while":
+                subs = [st[3]]
+            elif k == "for":
+                subs = [st[4]]
+            for blk in subs:
+                if walk(blk) is False:
+                    return False
+        return True
+
+    for _, body in prog["routines"]:
+        if body and walk(body) is False:
+            return
 
 
 def check_layout(acc, lay, name, rnd, sample=False):
